@@ -38,3 +38,24 @@ func (s *Server) VerifOpenStreams() int {
 	}
 	return n
 }
+
+// VerifGoAwaySessions counts the sessions whose peer has announced go-away
+// (probing with a stream that is closed at once when it does open).
+func (s *Server) VerifGoAwaySessions() int {
+	s.sessionsMu.Lock()
+	var all []*yamux.Session
+	for sess := range s.sessions {
+		all = append(all, sess)
+	}
+	s.sessionsMu.Unlock()
+	n := 0
+	for _, sess := range all {
+		st, err := sess.OpenStream()
+		if err == yamux.ErrRemoteGoAway {
+			n++
+		} else if err == nil {
+			_ = st.Close()
+		}
+	}
+	return n
+}
